@@ -3,6 +3,7 @@ package main
 import (
 	"encoding/json"
 	"fmt"
+	"math/rand"
 	"sort"
 	"sync/atomic"
 	"time"
@@ -295,7 +296,14 @@ func checkC07(c *Ctx) int {
 				report(c07Divergence{Kind: "state-mismatch-after-path", Path: path, Expected: si.st, Diffs: d, Script: s.Script})
 				return
 			}
-			for _, op := range si.rej {
+			rej := si.rej
+			if c.thorough() && len(rej) > 30 {
+				// thorough explores 4-node states: a seeded sample of the refused requests per state
+				r2 := rand.New(rand.NewSource(c.Seed + int64(ki)))
+				r2.Shuffle(len(rej), func(i, j int) { rej[i], rej[j] = rej[j], rej[i] })
+				rej = rej[:30]
+			}
+			for _, op := range rej {
 				if op.Op == "merge" && si.st.NN == 0 {
 					continue
 				}
@@ -353,7 +361,10 @@ func checkC07(c *Ctx) int {
 		}
 		atomic.AddInt64(&nStates, 1)
 	})
-	run.Set("traces_validated_against_impl", nAccepted+nRejected)
+	nTr, nEv := runKVTraces(c, run, c.pick(60, 400), c.pick(50, 80), c.pick(12, 16), false, "")
+	run.Set("random_traces_validated_by_tlc", nTr)
+	run.Set("random_trace_events", nEv)
+	run.Set("traces_validated_against_impl", nAccepted+nRejected+int64(nTr))
 	run.Set("accepted_edges_replayed", nAccepted)
 	run.Set("refused_requests_replayed", nRejected)
 	run.Set("rule", "one case = one transition of the TLC state graph (accepted request) or one refused request of the argument domain at a reachable state, replayed on the real server with the projected DAG, heads and identifier maps compared before and after; distinct = distinct (state, request)")
